@@ -1,5 +1,6 @@
 import Driver.Proto
 import SimuVerif.Model.Integrator
+import SimuVerif.Model.CouplingPass
 /-
   Model driver of C03: replays the request lines of harness/h_integrator.cpp with the `Float` instance of
   `Simu.Integ.stepN` (the very definitions the theorems of Properties/C03 are about).
@@ -7,6 +8,11 @@ import SimuVerif.Model.Integrator
   request:  integ CM DM threads dt damping nsteps ncells
                { localId kind density volume nnodes { used px py pz mx my mz fx fy fz k { c n }*k }*nnodes }*ncells
   answer:   ok time { px py pz mx my mz fx fy fz }*      |  bad-op
+
+  request:  pass MODE ncells { nnodes { used coup px py pz }*nnodes }*ncells       (harness/h_couplingpass.cpp)
+               coup = `-` (nullopt) or `c:n`; MODE (how the harness reaches the two loops) is ignored here
+  answer:   ok { used coup px py pz }*    |  undefined  (a used node's coupling names no slot: UB in the C++)  |  bad-op
+            = `Simu.Coupling.pass` (loop (A) symmetrisation then loop (B) midpoints) at `Float`
 -/
 open Simu Simu.Integ Driver
 
@@ -75,10 +81,54 @@ def pRequest : P String := do
     pure s!"ok {showF s.time}{body}"
   | _, _ => failure
 
+/-! ### `pass`: the tail of `resolve_all_contacts` (Model/CouplingPass.lean) -/
+
+def pCoup : P (Option Coupling.Slot) := do
+  let t ← tok
+  if t == "-" then pure none else
+  match t.splitOn ":" with
+  | [a, b] =>
+    match a.toNat?, b.toNat? with
+    | some c, some n => pure (some (c, n))
+    | _, _ => failure
+  | _ => failure
+
+def pCNode : P (Coupling.CNode Float) := do
+  let u ← nat
+  let cp ← pCoup
+  let pos ← vec
+  pure { used := u != 0, coup := cp, pos := pos }
+
+def pCCell : P (List (Coupling.CNode Float)) := do
+  let nn ← nat
+  if nn < 1 ∨ nn > 64 then failure
+  rep pCNode nn
+
+def showCoup : Option Coupling.Slot → String
+  | none => "-"
+  | some (c, n) => s!"{c}:{n}"
+
+def pPass : P String := do
+  let _mode ← tok
+  let ncells ← nat
+  if ncells > 64 then failure
+  let cs ← rep pCCell ncells
+  if !(← get).isEmpty then failure
+  match Coupling.pass cs with
+  | none => pure "undefined"
+  | some r =>
+    let body := r.foldl (fun acc l => l.foldl (fun acc (x : Coupling.CNode Float) =>
+      acc ++ s!" {if x.used then 1 else 0} {showCoup x.coup} {showV x.pos}") acc) ""
+    pure s!"ok{body}"
+
 def stepLine (line : String) : String :=
   match (line.trimAscii.toString.splitOn " ").filter (· ≠ "") with
   | "integ" :: args =>
     match pRequest.run args with
+    | some (r, _) => r
+    | none => "bad-op"
+  | "pass" :: args =>
+    match pPass.run args with
     | some (r, _) => r
     | none => "bad-op"
   | _ => "bad-op"
